@@ -4,6 +4,7 @@ import (
 	"bufio"
 	"encoding/json"
 	"fmt"
+	"sync/atomic"
 
 	"github.com/bufbuild/protocompile/experimental/report"
 )
@@ -58,7 +59,7 @@ type canonResult struct {
 }
 
 // canonicalize builds the permuted list through the constructors and canonicalizes it twice.
-func canonicalize(list []aDiag, perm []int, fs fileSet, keep bool) (first, second canonResult) {
+func canonicalize(list []aDiag, perm []int, fs fileSet, keep bool, render bool) (first, second canonResult) {
 	permuted := make([]aDiag, len(perm))
 	for i, p := range perm {
 		permuted[i] = list[p-1]
@@ -67,10 +68,14 @@ func canonicalize(list []aDiag, perm []int, fs fileSet, keep bool) (first, secon
 	r.KeepDuplicates = keep
 	r.Canonicalize()
 	first.diags = projectReport(r)
-	first.render, first.rok = renderReport(r)
+	if render {
+		first.render, first.rok = renderReport(r)
+	}
 	r.Canonicalize()
 	second.diags = projectReport(r)
-	second.render, second.rok = renderReport(r)
+	if render {
+		second.render, second.rok = renderReport(r)
+	}
 	return
 }
 
@@ -85,14 +90,13 @@ func sameResult(a, b canonResult) bool {
 }
 
 func runCanon(in *bufio.Scanner, sk *sink) {
-	n, calls, ties := 0, 0, 0
+	var n, calls, ties atomic.Int64
 	_ = report.Error
-	for in.Scan() {
-		raw := in.Bytes()
+	pump(in, func(raw []byte) {
 		switch kindOf(raw) {
 		case "meta":
 			checkMeta(raw)
-			continue
+			return
 		case "canon":
 		default:
 			harnessFail("canon: unexpected case kind")
@@ -101,9 +105,9 @@ func runCanon(in *bufio.Scanner, sk *sink) {
 		if err := json.Unmarshal(raw, &c); err != nil {
 			harnessFail("bad canon case: " + err.Error())
 		}
-		n++
+		n.Add(1)
 		if c.Tie {
-			ties++
+			ties.Add(1)
 		}
 		func() {
 			defer func() {
@@ -131,8 +135,8 @@ func runCanon(in *bufio.Scanner, sk *sink) {
 					if len(perm) != len(c.List) {
 						harnessFail("permutation of wrong length")
 					}
-					calls++
-					first, second := canonicalize(c.List, perm, fs, keep)
+					calls.Add(1)
+					first, second := canonicalize(c.List, perm, fs, keep, pi == 0 || pi == len(c.Perms)-1)
 					// C36: canonicalizing twice changes nothing
 					if !reportedIdem && !sameResult(first, second) {
 						reportedIdem = true
@@ -178,6 +182,6 @@ func runCanon(in *bufio.Scanner, sk *sink) {
 				}
 			}
 		}()
-	}
-	stats(map[string]any{"cases": n, "canonicalize_calls": calls, "tie_cases": ties, "classes": sk.perClass})
+	})
+	stats(map[string]any{"cases": n.Load(), "canonicalize_calls": calls.Load(), "tie_cases": ties.Load(), "classes": sk.perClass})
 }
